@@ -28,13 +28,13 @@ OPS = {"singles_gl", "singles_simpson", "counts", "efficiencies", "counts_corr",
 TOL = {"singles_gl": ("rel", 1e-6), "singles_simpson": ("rel", 1e-6), "counts": ("rel", 1e-12),
        "efficiencies": ("rel", 1e-12), "counts_corr": ("ulp", 8), "eff": ("ulp", 4)}
 DEFAULT_TOL = ("exact",)
-RULE = ("family counts: the probed D9 input, then seeded random phase-matched setups (11 crystals x 5 types x poling on(auto period)/"
+RULE = ("family counts: the probed D9 input, then seeded random phase-matched setups (11 crystals x 5 types x poling on(auto period, apodised or not)/"
         "off(auto angle) x collinear/non-collinear x waists 20-300 um x L 0.5-20 mm; phase-matched = built with the crate's auto "
-        "options and |dk_z| L/2 < pi at the centre, others skipped and counted); every fifth a near-unity-heralding source (ppKTP 0.3-2 mm, pump 150-400 um, collection 25-50 um); pump-spectrum "
+        "options and |dk_z| L/2 < pi at the centre, others skipped and counted); every fifth a poled counter-propagating setup (both orientations, collinear or tilted), every fifth a near-unity-heralding source (ppKTP 0.3-2 mm, pump 150-400 um, collection 25-50 um); pump-spectrum "
         "threshold from {1e-2,1e-4,0.1,0.25}; per setup a grid of frequency pairs inside the "
         "support (pump direction: core and the wings thr <= alpha < sqrt(thr), just inside and beyond the threshold contour; x "
         "anti-diagonal through +-1.6 first zeros; pairs with vanishing singles are not skipped) under Gauss-Legendre-40 and Simpson-200, the rates and "
-        "efficiencies on a square core grid and on a 7x7 grid reaching beyond the threshold contour, every third setup a call-history sequence of SPDC::efficiencies (two integrators, one parameter changed, repeat) compared with freshly evaluated spectra, the singles integrand through 7 low-order rules; mode singles: the integrand on random "
+        "efficiencies on a square core grid and on a 7x7 grid reaching beyond the threshold contour, every third setup the API routes (methods, free functions, wavelength space, point vs range), the exact-threshold boundary pair and a 2x2 grid; every third setup a call-history sequence of SPDC::efficiencies (two integrators, one parameter changed, repeat) compared with freshly evaluated spectra, the singles integrand through 7 low-order rules; mode singles: the integrand on random "
         "general setups (non-collinear, apodised, counter-propagating); mode limit: collinear waists 1-5 mm, ratio vs eta F^2/R; "
         "mode eff: 13^3 corner triples + random triples (zero, subnormal, tiny, huge)")
 RESIDUAL = ("the pointwise inequality jsi <= min(singles) between the two independent closed forms (hypothesis of the theorems; "
